@@ -248,8 +248,8 @@ PROPS["C08"] = {
 
 _CA = "github.com/gmrtd/gmrtd/chipauth."
 PROPS["C14"] = {
-    "patterns": ["./chipauth", "./verifier"],
-    "harness": {"chipauth": ["chipauth/c14.go"], "verifier": ["verifier/c14.go"]},
+    "patterns": ["./chipauth", "./verifier", "./pace"],
+    "harness": {"chipauth": ["chipauth/c14.go"], "verifier": ["verifier/c14.go"], "pace": ["pace/c04ref.go", "pace/c04.go", "pace/c14.go"]},
     "level_text": "Claimed in part. (1) Offline verifier: the real SSA of Verifier.Verify/WithAAChallenge with decoding, the three evidence verifications, passive authentication and the completeness check replaced by recording stubs with symbolic outcomes: each present evidence is verified exactly once over the imported document and its verdict/error recorded unchanged, passive authentication runs over the imported document, the completeness verdict is recorded, a supplied AA challenge that differs from the recorded nonce in any byte is a hard failure, verdict failures are not fatal. With C02 (verdict gating is a function of these session fields only) and C15 (export/import) this gives equality of live and offline verdicts given equal documents and evidence verdicts. (2) chipauth.VerifyEvidence on arbitrary evidence (fields absent / present with small lengths, counter field of 0..17 bytes, 3DES and AES), curve arithmetic and key decoding stubbed nondeterministically: never panics, errors for documents without DG14 / security infos, success returns the verified evidence and only after the captured protected response passed SecureMessaging.Decode (C03) with status 9000. (3) The counter: with Decode replaced by a recording stub, at its single call the session counter equals the recorded SmSsc minus one on the full counter width (all 8 / 16 bytes; 1 when none was recorded) and the argument is the captured response - so changing any byte of the recorded counter changes what is authenticated.",
     "level_note": "Not applicable / outside: that evidence captured from a genuine session always verifies and that changing a single evidence field makes verification fail are statements about elliptic-curve arithmetic, ECDH and the KDF on real curves (crypto/elliptic, brainpool, math/big) which cannot be encoded here; pace.VerifyEvidence's chain and the AA signature (C07) likewise. CBOR serialisation between live and offline is C15. Harnesses with injected stubs cannot be replayed natively; the no-DG14 harness is replayable.",
     "bounds": "all combinations of present/absent evidence kinds and verdicts; 8-byte challenge and nonce symbolic; evidence fields up to 4 bytes, counter field up to 17 bytes",
@@ -265,6 +265,9 @@ PROPS["C14"] = {
          "redirect": {_CA + "selectChipAuthParams": "verifStubSelectParams", _CA + "deriveSessionKeys": "verifStubDeriveKeys",
                       "(*github.com/gmrtd/gmrtd/cms.SubjectPublicKeyInfo).EcCurveAndPubKey": "verifStubEcCurveAndPubKey",
                       "github.com/gmrtd/gmrtd/cryptoutils.DecodeX962EcPoint": "verifStubDecodePoint"}, "expect_reach": ["returned"]},
+        {"func": "verifH_C14_cam", "pkg": "pace", "params": {"fieldbytes": [32], "ecadlen": [16]}, "params_thorough": {"fieldbytes": [24, 32], "ecadlen": [16, 48]}, "unwind": 400, "no_replay": True, "canon_all": True,
+         "timeout_ms": 60000, "redirect": {"github.com/gmrtd/gmrtd/pace.standardisedDomainParams": "verifStubDomainParams",
+         "(github.com/gmrtd/gmrtd/cryptoutils.EcPoint).String": "verifStubPointString", "(github.com/gmrtd/gmrtd/cryptoutils.EcKeypair).String": "verifStubKeypairString"}, "expect_reach": ["returned", "accepted", "rejected"]},
         {"func": "verifH_C14_ca_counter", "pkg": "chipauth", "params": {"nssc": [0, 1, 8, 16], "aes": [0, 1]}, "unwind": 64, "no_replay": True,
          "redirect": {_CA + "selectChipAuthParams": "verifStubSelectParams", _CA + "deriveSessionKeys": "verifStubDeriveKeys",
                       "(*github.com/gmrtd/gmrtd/cms.SubjectPublicKeyInfo).EcCurveAndPubKey": "verifStubEcCurveAndPubKey",
@@ -275,7 +278,7 @@ PROPS["C14"] = {
 
 PROPS["C01"] = {
     "patterns": ["./passiveauth", "./cms"],
-    "harness": {"passiveauth": ["passiveauth/c01.go"], "cms": ["cms/c01.go"]},
+    "harness": {"passiveauth": ["passiveauth/c01.go"], "cms": ["cms/c01.go", "cms/c01chain.go"]},
     "level_text": "Claimed in part: the composition (accept implies every required check passed), not the primitives. The real SSA of passiveauth.PassiveAuth, validateDgHashes, countryCscaCerts, alpha2CountryCode, Document.DgHashes/DgHash and SOD.DgHash is executed over a symbolic document: DG1/DG2/DG14 present or absent with symbolic raw bytes, EF.SOD present or absent with a hash list of up to 2 entries whose numbers range over {1,2,14,3} and whose values are H(raw) XOR an arbitrary delta or empty, CardSecurity present or absent; the outcome of SignedData.Verify for SOD and CardSecurity, the signer country, the DG1 country (incl. letter case and resolution errors) and the number of trust anchors of that country are symbolic. z3 shows: Success implies EF.SOD present, at least one anchor of the signer's country (the store is asked for exactly that country), signer country = DG1 country when DG1 is present, SOD.Verify returned no error against those anchors, CardSecurity (when present) verified against the same anchors and its verdict is recorded only then, and every present data group has a first hash-list entry for its number that is non-empty and equals the hash of the raw bytes (delta = 0) - a data group missing from the list is rejected as injection. Should PassiveAuth use the *WithConfig entry point, the configuration must arrive without a reference time (the signing time cached while verifying one object is not reused for the other).",
     "level_note": "Not applicable to this technique: signature verification (RSA/ECDSA/PSS, brainpool), X.509/CMS decoding (encoding/asn1 reflection), the chain building inside SignedData.Verify/Certificate.Verify and the pool look-ups; hence 'no byte-level mutation of a genuine SOD passes' is not a solver result here. SignerInfo/Certificate.VerifyWithConfig gating is not yet encoded. The harness cannot be replayed natively (stubs injected by the engine).",
     "bounds": "3 data groups, hash list of up to 2 entries, 32-byte digests (uninterpreted SHA-256), 0..2 anchors",
@@ -286,6 +289,11 @@ PROPS["C01"] = {
          "redirect": {"(github.com/gmrtd/gmrtd/document.SOD).CertCountryAlpha2": "verifStubSodCountry", "(github.com/gmrtd/gmrtd/document.DG1).IssuingCountryAlpha2": "verifStubDg1Country",
                       "(*github.com/gmrtd/gmrtd/cms.SignedData).Verify": "verifStubSDVerify", "(*github.com/gmrtd/gmrtd/cms.SignedData).VerifyWithConfig": "verifStubSDVerifyCfg",
                       "github.com/gmrtd/gmrtd/cms.NewDefaultCMSConfig": "verifStubNewCfg"}},
+        {"func": "verifH_C01_issuer", "pkg": "cms", "params": {"K": [0, 1, 2]}, "unwind": 64, "no_replay": True, "expect_reach": ["returned", "accepted"],
+         "redirect": {"(github.com/gmrtd/gmrtd/cms.Extensions).UnrecognizedCriticalExtensions": "verifStubUnrec", "(github.com/gmrtd/gmrtd/cms.Extensions).AuthorityKeyIdentifier": "verifStubAKI", "(github.com/gmrtd/gmrtd/cms.Extensions).BasicConstraints": "verifStubBC",
+                      "(github.com/gmrtd/gmrtd/cms.Extensions).KeyUsage": "verifStubKU", "(github.com/gmrtd/gmrtd/cms.Extensions).ExtKeyUsage": "verifStubEKU", "(github.com/gmrtd/gmrtd/cms.Extensions).ExtKeyUsageIsCritical": "verifStubEKUCrit",
+                      "(github.com/gmrtd/gmrtd/cms.AlgorithmIdentifier).DetermineDigestAlgFromSigAlgWithConfig": "verifStubDigAlg", "github.com/gmrtd/gmrtd/cms.checkValidityPeriod": "verifStubCertValidity",
+                      "github.com/gmrtd/gmrtd/cms.checkParentValidityPeriod": "verifStubParentValidity", "github.com/gmrtd/gmrtd/cms.VerifySignature": "verifStubChainSig"}},
         {"func": "verifH_C01_signer", "pkg": "cms", "unwind": 64, "no_replay": True, "expect_reach": ["returned", "accepted"],
          "redirect": {"(*github.com/gmrtd/gmrtd/cms.SignerInfo).prepareVerificationData": "verifStubPrepare", "(*github.com/gmrtd/gmrtd/cms.SignerInfo).resolveSigningTime": "verifStubSigningTime",
                       "(*github.com/gmrtd/gmrtd/cms.SignerInfo).selectCertificate": "verifStubSelectCert", "github.com/gmrtd/gmrtd/cms.validateDSCertExtensions": "verifStubDSExt", "github.com/gmrtd/gmrtd/cms.checkValidityPeriod": "verifStubValidity",
@@ -319,7 +327,7 @@ PROPS["C20"] = {
 
 PROPS["C06"] = {
     "patterns": ["./chipauth"],
-    "harness": {"chipauth": ["chipauth/c14.go", "chipauth/c06.go", "chipauth/c06b.go"]},
+    "harness": {"chipauth": ["chipauth/c14.go", "chipauth/c06.go", "chipauth/c06b.go", "chipauth/c06ref.go", "chipauth/c06ca.go"]},
     "level_text": "Claimed in part: the two mechanisms of chip authentication that are integer/byte code. (1) Parameter and key selection: the real SSA of selectChipAuthParams, resolveCAInfo, selectCAPubKeyInfo, inferCAInfoFromKey and the algorithm table is executed on security infos built directly (0..2 ChipAuthenticationInfos over all 8 suites with key id absent/1/2, 0..2 public keys DH/ECDH with key id absent/1/2, all symbolic) and compared with a reference selection: never panics, picks the info of maximal weight, the first key of that suite's key-agreement type whose id matches when the info names one, fails only when no such key exists, infers the suite from the first key only when no info is present. (2) Session keys: the real SSA of deriveSessionKeys, cryptoutils.EcDhSharedSecret, KDF, DesKeyAdjustParity with the ECDH point multiplication replaced by a stub returning an arbitrary x-coordinate (big.Int modelled as sign+magnitude bit-vectors): KS.ENC/KS.MAC = KDF(x as an octet string of exactly the field length, 1/2) for every value of x, including the 1/256 slice with leading zero octets (asserted reachable and explicitly forced).",
     "level_note": "Not applicable to this technique: that a conforming chip holding the key is always accepted and a chip without it never (elliptic-curve scalar multiplication over P-192..P-521/brainpool in math/big and crypto/elliptic, explicit-parameter decoding through encoding/asn1) and the CAM check KA(CA_IC, PK_IC) = PK_Map. The step 'success only after a protected exchange under the new keys' reduces to SecureMessaging.Decode's acceptance condition (C03) and is exercised on evidence in C14; the restarted counter is part of C14's VerifyEvidence harness (SmSsc length) and C10. The shared-secret harness uses an injected stub and is not replayed natively; the leading-zero defect it found was reproduced natively on P-256 (known_findings.json).",
     "bounds": "selection: up to 2 infos and 2 keys, key ids in {absent,1,2}; shared secret: field length 32 bytes quick (24, 28, 32, 48, 64, 66 thorough), 3DES and AES-128 quick (+192/256 thorough)",
@@ -329,6 +337,9 @@ PROPS["C06"] = {
         {"func": "verifH_C06_select", "pkg": "chipauth", "params": {"infos": [0, 1, 2], "keys": [0, 1, 2]}, "unwind": 64, "expect_reach": ["selected"]},
         {"func": "verifH_C06_secret", "pkg": "chipauth", "params": {"fieldbytes": [32], "aes": [0, 128], "leadzero": [0, 1]}, "params_thorough": {"fieldbytes": [24, 28, 32, 48, 64, 66], "aes": [0, 128, 192, 256]},
          "unwind": 300, "canon_all": True, "no_replay": True, "redirect": {"github.com/gmrtd/gmrtd/cryptoutils.DoEcDh": "verifStubDoEcDh"}, "expect_reach": ["derived"]},
+        {"func": "verifH_C06_ca", "pkg": "chipauth", "params": {"fieldbytes": [32], "suite": [0, 1, 3], "keyid": [0, 1], "genuine": [0, 1]}, "params_thorough": {"fieldbytes": [24, 66], "suite": [0, 1, 2, 3]},
+         "unwind": 400, "canon_all": True, "no_replay": True, "timeout_ms": 60000, "expect_reach": ["ran", "genuine-success", "impostor-accepted", "rejected"],
+         "redirect": {"(*github.com/gmrtd/gmrtd/cms.SubjectPublicKeyInfo).EcCurveAndPubKey": "verifStubCaCurveAndKey", "(github.com/gmrtd/gmrtd/cryptoutils.EcPoint).String": "verifStubPointStr"}},
     ],
 }
 
@@ -340,13 +351,13 @@ PROPS["C04"] = {
     "harness": {"pace": ["pace/c04ref.go", "pace/c04.go"]},
     "level_text": "Claimed in part: the protocol logic of PACE generic mapping / chip-authentication mapping, with the elliptic curve replaced by an abstract group. The real SSA of Pace.DoPACE, selectPaceConfig, paceConfigGetByOID, keyForPassword, doApduMseSetAT, getNonce, decryptNonce, doGenericMappingGmCam, mapNonceGmEcDh, doGenericMappingEC, keyAgreementGmEcDh, mutualAuthGmEcDh, computeAuthTokens, computeAuthToken, encodePubicKeyTemplate7F49, encode/decodeDynAuthData, doCamEcdh, decryptEcadIC, icPubKeyECForCAM, cryptoutils.KDF/DesKeyAdjustParity/CryptCBC/ISO9797RetailMacDes/ISO9797Method2Pad/Unpad/EncodeX962EcPoint/DecodeX962EcPoint/DoEcDh/EcDhSharedSecret/EcPoint.Equal, crypto/elliptic.Marshal/Unmarshal, Password.Key/Type, NfcSession.MseSetAT/GeneralAuthenticate/DoAPDU, NewSecureMessaging is executed against a reference chip written from ICAO 9303-11 §4.4 (plain byte code behind a Transceiver). The curve handed to the code is an abstract Z-module: points are 2n-octet strings, scalar multiplication and addition are uninterpreted functions kept in the normal form that expresses a(bP) = b(aP) and P+Q = Q+P, membership an uninterpreted predicate; generator, nonce, all four ephemeral scalars, the chip's static key and CA data, the password (24-byte MRZ information or 6-digit CAN) are symbolic. z3 shows: (1) conforming chip, same password: MSE:Set AT names protocol, password type and parameter id; four GENERAL AUTHENTICATE commands with the right data objects, chained except the last; the chip accepts the terminal's token; PACE succeeds; both sides hold KDF(fixed-width x-coordinate of the agreed point, 1/2) with the counter at zero; for CAM the mapping is reported successful and the evidence records every captured value - for 3DES, AES-128 (thorough: all seven suites) and for MRZ and CAN passwords. (2) Error status at any of the five steps, or a response lacking its data object: PACE fails, no secure messaging, no CAM result. (3) Every chip value arbitrary (nonce cryptogram, mapping key, agreement key, token = expected XOR arbitrary delta): success implies delta = 0 for the token over the terminal's own agreement key under keys from the terminal's own agreement, both chip keys are group members and differ from the terminal's, installed keys/counter as derived; failure leaves no secure messaging. (4) Conforming chip whose encrypted CA data is arbitrary: CAM is reported successful exactly when the plaintext is correctly padded and KA(CA_IC, PK_IC) = PK_Map,IC. (5) selectPaceConfig on up to 2 PACEInfos over all 19 table entries, an unknown OID and parameter ids absent / 2 / 8 / 18 / 19: never panics, picks the known entry of maximal preference, errors only if none or its parameter id is missing/unsupported; whenever a supported suite is advertised (and ECDH entries carry EC parameter ids) a supported one is chosen.",
     "level_note": "Not applicable to this technique: the arithmetic of the eleven standardised curves (crypto/elliptic, brainpool, math/big) - the check shows that gmrtd's use of the group operations, ciphers, MACs and hashes equals ICAO's for every group with the module laws, not that P-256 is one. 'A different password makes PACE fail' and 'an altered value makes the token mismatch' hold only up to collisions of the idealised primitives; what is decided is the acceptance condition (3). standardisedDomainParams is replaced by a stub that hands out the abstract group for ids 8..18 (its table is a plain switch). Harness with injected stubs: not replayed natively; the leading-zero shared-secret defect it depends on (fixed in fb87c02) was reproduced natively (see C06). The normal form orders scalars by term identity; two different writings of one scalar could lose the law and raise an alarm (never hide a violation) - value ordering was tried and is beyond z3 (unknown at 60 s).",
-    "bounds": "field size 32 octets quick (24 and 66 thorough; 66 with a 521-bit size); 16-byte nonce; suites 3DES, AES-128, CAM-AES-128 quick (all 7 thorough); encrypted CA data of 16 bytes; group elements with an all-zero coordinate excluded; up to 2 PACEInfos",
+    "bounds": "field size 32 octets and a 3-octet toy field quick (3, 24 and 66 thorough; 66 with a 521-bit size); 16-byte nonce; suites 3DES, AES-128, CAM-AES-128 quick (all 7 thorough); encrypted CA data of 16 bytes; group elements with an all-zero coordinate excluded; up to 2 PACEInfos",
     "outside": "curve arithmetic; PACE-IM and DH (not implemented by gmrtd); more than one fault per run; extended-length APDUs",
     "assumptions": ["block ciphers are permutations per key", "CMAC and hashes as uninterpreted functions", "scalar multiplication/addition form a Z-module (uninterpreted otherwise)", "in a conforming run the two public keys of a step differ (9303-11 4.4.1 d)"],
     "jobs": [
         {"func": "verifH_C04_select", "pkg": "pace", "params": {"infos": [0, 1, 2]}, "unwind": 64, "redirect": _C04_REDIR, "expect_reach": ["selected"]},
-        {"func": "verifH_C04_pace", "pkg": "pace", "params": {"fieldbytes": [32], "suite": [0, 1, 4], "can": [0, 1], "arbitrary": 0, "fail": -1, "drop": -1, "ecadlen": 48},
-         "params_thorough": {"fieldbytes": [24, 66], "suite": [0, 1, 2, 3, 4, 5, 6]},
+        {"func": "verifH_C04_pace", "pkg": "pace", "params": {"fieldbytes": [3, 32], "suite": [0, 1, 4], "can": [0, 1], "arbitrary": 0, "fail": -1, "drop": -1, "ecadlen": 48},
+         "params_thorough": {"fieldbytes": [3, 24, 66], "suite": [0, 1, 2, 3, 4, 5, 6]},
          "unwind": 400, "no_replay": True, "canon_all": True, "redirect": _C04_REDIR, "timeout_ms": 60000, "expect_reach": ["ran", "genuine-success"]},
         {"func": "verifH_C04_pace", "pkg": "pace", "params": {"fieldbytes": [8], "suite": [0, 4], "can": 0, "arbitrary": 0, "fail": [0, 1, 2, 3, 4], "drop": -1, "ecadlen": 48},
          "params_thorough": {"fieldbytes": [32]},
